@@ -210,6 +210,44 @@ def check_scalar_ladder(ctx):
     arms = [st for st in ast.walk(f.node) if isinstance(st, ast.If) and f"{at} is " in norm(st.test) and "_check_scalar" in norm(ast.Module(body=st.body, type_ignores=[]))]
     n = 0
     seen = set()
+    # second spelling: the arms only pick the dtype-name prefix (`prefix = "int"`), one shared
+    # `_check_scalar(prefix, dtypes, dims)` follows under `if prefix is not None`
+    shared_calls = []
+    if not arms:
+        cands = [c for c in m.calls_in(f) if norm(c.func) == "_check_scalar" and c.args and isinstance(c.args[0], ast.Name)]
+        if len(cands) == 1:
+            pv = cands[0].args[0].id
+            sel = [st for st in ast.walk(f.node) if isinstance(st, ast.If) and f"{at} is " in norm(st.test)
+                   and any(isinstance(a, ast.Assign) and norm(a.targets[0]) == pv and isinstance(a.value, ast.Constant) and isinstance(a.value.value, str) for a in st.body)]
+            defaults = [a for a in ast.walk(f.node) if isinstance(a, ast.Assign) and norm(a.targets[0]) == pv and isinstance(a.value, ast.Constant) and a.value.value is None]
+            guards = [st for st in ast.walk(f.node) if isinstance(st, ast.If) and norm(st.test) == f"{pv} is not None" and any(x is cands[0] for b_ in st.body for x in ast.walk(b_))]
+            if sel and defaults and guards:
+                shared_calls = cands
+                for st in sel:
+                    types = re.findall(rf"{at} is ([A-Za-z_\.]+)", norm(st.test))
+                    prefix = next(a.value.value for a in st.body if isinstance(a, ast.Assign) and norm(a.targets[0]) == pv and isinstance(a.value, ast.Constant))
+                    for t in types:
+                        n += 1
+                        seen.add(t)
+                        if t not in LADDER:
+                            ctx.bad("C15.3", f, st.test, f"scalar ladder has an arm for `{t}`, which the documented laws do not mention")
+                        elif LADDER[t] != prefix:
+                            ctx.bad("C15.3", f, st, f"the scalar type `{t}` is admitted for categories containing dtype names starting with '{prefix}' (must be '{LADDER[t]}')")
+                        else:
+                            ctx.ok("C15.3", f.qualname, f"{t} <-> prefix '{prefix}' (shared _check_scalar call)")
+                if [norm(a) for a in cands[0].args[1:]] != ["dtypes", "dims"]:
+                    ctx.bad("C15.3", f, cands[0], "_check_scalar is not given (dtypes, dims) of this annotation")
+                # what the guarded block returns: the scalar type itself or the not-made marker, decided by the call
+                rets = []
+                resvars = {norm(a.targets[0]) for a in ast.walk(guards[0]) if isinstance(a, ast.Assign) and a.value is cands[0]}
+                for x in ast.walk(guards[0]):
+                    if isinstance(x, ast.Return):
+                        if isinstance(x.value, ast.IfExp) and (x.value.test is cands[0] or norm(x.value.test) in resvars):
+                            rets += [norm(x.value.body), norm(x.value.orelse)]
+                        else:
+                            rets.append(norm(x.value))
+                if sorted(rets) != sorted([at, "_not_made"]):
+                    ctx.bad("C15.3", f, guards[0], f"the scalar branch returns {rets} (expected the scalar type itself, or the not-made marker)")
     for st in arms:
         types = re.findall(rf"{at} is ([A-Za-z_\.]+)", norm(st.test))
         calls = [c for x in st.body for c in ast.walk(x) if isinstance(c, ast.Call) and norm(c.func) == "_check_scalar"]
@@ -241,7 +279,7 @@ def check_scalar_ladder(ctx):
     # (prefix not a literal at the call) is not something a missing arm can be read off from
     arm_calls = {id(c) for st in arms for x in st.body for c in ast.walk(x) if isinstance(c, ast.Call) and norm(c.func) == "_check_scalar"}
     other_calls = [c for fn_ in m.all_functions(include_typeguard=False) for c in m.calls_in(fn_)
-                   if norm(c.func) == "_check_scalar" and id(c) not in arm_calls]
+                   if norm(c.func) == "_check_scalar" and id(c) not in arm_calls and not any(c is x for x in shared_calls)]
     missing = [t for t in ("bool", "int", "float", "complex") if t not in seen]
     if missing and (n == 0 or other_calls):
         raise AnalysisError(f"C15.3: the scalar ladder is not (only) a chain of `{at} is T` arms with literal prefixes "
